@@ -241,7 +241,7 @@ def showTRes : TRes → String
   | .done => "ok"
 
 def tStateLine (i : Nat) (s : TSt) : String :=
-  s!"adv {i} | C {showNats (sortKeys (akeys s.cache))} | F {showNats (sortKeys s.refreshing)} | B {showKV s.back}"
+  s!"adv {i} | C {showNats (sortKeys (akeys s.cache))} | F {showNats (sortKeys s.refreshing)} | O {showNats s.order} | B {showKV s.back}"
 
 def runSoft (variant : String) (soft hard cap : Nat) (body : List String) : List String :=
   let cfg : TCfg := ⟨soft, hard, if cap == 0 then none else some cap, variant == "repaired"⟩
@@ -282,7 +282,7 @@ def runSoft (variant : String) (soft hard cap : Nat) (body : List String) : List
         src ++ ls ++ go r.1 (i :: started) rest
   go {} [] advs
 
-def judgeSoftBlock (hard : Nat) (body : List String) : List String :=
+def judgeSoftBlock (hard cap : Nat) (body : List String) : List String :=
   let gets := body.filterMap fun l =>
     match toks l with
     | ["get", k, ti, tr, v] => some (⟨natD k, natD ti, natD tr, if v == "None" then none else some (natD v)⟩ : GetObs)
@@ -291,7 +291,14 @@ def judgeSoftBlock (hard : Nat) (body : List String) : List String :=
     match toks l with
     | ["src", k, v, t] => some (⟨natD k, natD v, natD t⟩ : SrcObs)
     | _ => none
-  match judgeSoft hard srcs gets with
+  -- `obs | C <sorted cached keys> | O <sorted LRU-tracked keys>`
+  let obs := body.filterMap fun l =>
+    match (l.splitOn "|").map toks with
+    | [["obs"], ("C" :: c), ("O" :: o)] => some (⟨nats c, nats o⟩ : SoftObs)
+    | _ => none
+  let nObs := (body.filter (fun l => l.startsWith "obs ")).length
+  if nObs != obs.length then ["viol softttl/malformed-judge-input"] else
+  match judgeSoftAll hard (if cap == 0 then none else some cap) srcs gets obs with
   | none => ["ok"]
   | some sig => [s!"viol {sig}"]
 
@@ -302,7 +309,7 @@ def handle (hdr : List String) (body : List String) : List String :=
   | ["store", variant, name, arg, cap, wt] => runStore variant name (natD arg) (natD cap) (wt == "1") body
   | ["judge-store", name, arg, cap, wt] => judgeStoreBlock name (natD arg) (natD cap) (wt == "1") body
   | ["softttl", variant, soft, hard, cap] => runSoft variant (natD soft) (natD hard) (natD cap) body
-  | ["judge-softttl", hard] => judgeSoftBlock (natD hard) body
+  | ["judge-softttl", hard, cap] => judgeSoftBlock (natD hard) (natD cap) body
   | _ =>
     -- families kept in their own files: MultiTierCache (`tier…`), PageCache (`page…`), write policies (`wpol…`)
     match Tier.handle? hdr body with
